@@ -1,5 +1,12 @@
 """C12 — Aggregation, cut-through and compact-block hydration are faithful (spec/Agg.tla).
 
+Cut-through is specified with bag semantics: inside a family a commitment may be created and spent
+several times (chain, re-creation = create/spend/create, re-spend, cycle, double spend, duplicate
+output, ...); matched PAIRS cancel and what remains must be free of duplicates.  TLC checks that
+every permutation / bracketing either is refused (exactly when one of its groups leaves a commitment
+twice) or yields the one aggregate of the family; the real code must give the same verdict and the
+same transaction for every plan, and the same block for every grouping it is built / hydrated from.
+
 (M) TLC checks on every family of <= 4 transactions of the model libraries (independent, chained
     incl. chains of three and a diamond, multi-kernel, all kernel kinds, zero / positive / negative
     offsets) and every permutation and bracketing of it: order/grouping independence, kernels =
@@ -40,10 +47,18 @@ def canon_expect(e):
             "kerns": sorted(e["kerns"]), "off": e["off"]}
 
 
-def canon_real(p, with_off=True):
+def proof_choice(p):
+    """[v, r, variant] of the outputs that carry one of the alternative proofs made for their commitment"""
+    return sorted([o[0], o[1], o[4]] for o in p["outs"] if len(o) == 5)
+
+
+def canon_real(p, with_off=True, any_proof=False):
+    """any_proof: the family creates a commitment with several valid proofs; the one carried is left free"""
     outs = []
     for o in p["outs"]:
-        if len(o) != 4 or o[0] == "?" or o[3] is not True:
+        if any_proof and len(o) == 5 and o[0] != "?" and o[3] is False:
+            outs.append(o[:3])
+        elif len(o) != 4 or o[0] == "?" or o[3] is not True:
             outs.append(["?"] + o)      # unknown commitment or not the proof the output was created with
         else:
             outs.append(o[:3])
@@ -61,6 +76,36 @@ def diff_field(want, got):
     return None
 
 
+PLAIN_SHAPES = {"once", "chain"}
+
+
+def family_label(c):
+    """independent | chain | the special shapes of the family joined by '+', e.g. recreate, cycle+respend"""
+    special = sorted(set(c["shapes"]) - PLAIN_SHAPES)
+    if special:
+        return "+".join(special)
+    return "chain" if "chain" in c["shapes"] else "independent"
+
+
+def shape_suffix(c):
+    lab = family_label(c)
+    return "" if lab in ("independent", "chain") else ":shape=" + lab
+
+
+def pick_builds(c):
+    """Groupings (indices into c["plans"]) the block is additionally built from: all their parts exist."""
+    n = len(c["fam"])
+    if n < 2 or not c["aggregable"]:
+        return []
+    ok = [i for i, p in enumerate(c["plans"]) if c["parts_ok"][i] and len(p) >= 1]
+    picks = []
+    for want in ("nested", "grouped", "flat"):
+        cand = [i for i in ok if shape(c["plans"][i]) == want and c["plans"][i] != list(range(1, n + 1))]
+        if cand:
+            picks.append(cand[(vlib.seed() * 7 + len(c["fam"]) + c["lib"]) % len(cand)])
+    return picks
+
+
 def to_harness_case(c):
     n = len(c["fam"])
     plans = [zero_based(p) for p in c["plans"]]
@@ -69,99 +114,192 @@ def to_harness_case(c):
     # de-aggregate from the aggregate built in canonical order and from one built in reverse, grouped
     mks = [flat, [list(reversed(flat))]] if n >= 2 else [flat]
     h["deaggs"] = [{"mk": mk, "sub": zero_based(d["sub"])} for d in c["deaggs"] for mk in mks]
-    if c["conflict_free"]:
+    if c["aggregable"]:
         b = c["block"]
+        c["builds"] = pick_builds(c)
         h["block"] = {"cb_out": b["cb_out"], "cb_kern": b["cb_kern"], "height": b["height"], "prev": b["prev"],
-                      "groupings": plans}
+                      "groupings": plans, "builds": [plans[i] for i in c["builds"]]}
     return h, len(mks)
 
 
-def judge(c, r, viol, counts):
-    """Compare one family's real results with the specification. viol(signature, what, detail)."""
+def judge(c, r, viol, counts, obs=None):
+    """Compare one family's real results with the specification. viol(signature, what, detail).
+    obs(signature, what, detail): behaviour the specification leaves free but which is worth knowing
+    (which of several valid range proofs of a re-created commitment survives)."""
+    obs = obs or (lambda *a: None)
+    pvf = bool(c.get("proof_variants"))
     n = len(c["fam"])
     cf = c["conflict_free"]
-    exp = [canon_expect(e) for e in c["expect"]]
-    if cf and not r["operands_ok"]:
+    ag = c["aggregable"]
+    lab = family_label(c)
+    sfx = shape_suffix(c)
+    want = canon_expect(c["expect"])            # None: the family has no aggregate (refused shape)
+    if (want is None) == ag:
+        raise ToolError("Agg case inconsistent: aggregable=%s expect=%s" % (ag, c["expect"]))
+    if not r["operands_ok"]:
         raise ToolError("a library transaction is refused by the real Transaction::validate: %s" % json.dumps(c["txs"])[:600])
+    counts["families_" + lab] += 1
+    real_ok, real_refused = [], []              # among the plans the specification says exist / are refused
+    projs, choices = {}, {}
     for i, (plan, pr) in enumerate(zip(c["plans"], r["plans"])):
-        want = exp[0] if cf else exp[i]
+        spec_ok = c["plan_ok"][i]
         sh = shape(plan)
         counts["plans"] += 1
         counts["plans_" + sh] += 1
         if not cf:
-            # outside the property (double spends / duplicate outputs inside the family): evidence only
-            agree = (want is None) == (pr["res"] != "ok") and (want is None or canon_real(pr["proj"]) == want)
-            counts["conflict_plans_agree" if agree else "conflict_plans_differ"] += 1
+            counts["plans_shape_" + lab] += 1
+        if pr["res"] == "panic":
+            viol("agg:aggregate:panic:%s%s" % (sh, sfx), "aggregate panicked", {"plan": plan, "real": pr})
+            continue
+        if not spec_ok:
+            # a group of the plan (or the family itself) leaves a commitment twice: must be refused
+            counts["plans_refused_by_spec"] += 1
+            if pr["res"] == "ok":
+                real_refused.append((plan, "ok"))
+                viol("agg:aggregate:accepted:%s%s" % (sh, sfx),
+                     "aggregate accepted a plan with a group that spends or creates a commitment twice after cut-through",
+                     {"plan": plan, "hot": c["hot"], "got": canon_real(pr["proj"])})
+            else:
+                real_refused.append((plan, "err"))
+                counts["plans_refused_agree"] += 1
             continue
         if pr["res"] != "ok":
+            real_ok.append((plan, "err"))
             if c["nondegenerate"]:
-                viol("agg:aggregate:failed:%s" % sh, "aggregate failed (%s %s) on a conflict-free family" % (pr["res"], pr.get("err")),
-                     {"plan": plan, "real": pr})
+                viol("agg:aggregate:failed:%s%s" % (sh, sfx), "aggregate failed (%s %s) on a family that has an aggregate (%s)"
+                     % (pr["res"], pr.get("err"), lab), {"plan": plan, "hot": c["hot"], "real": pr})
             continue
-        got = canon_real(pr["proj"])
+        real_ok.append((plan, "ok"))
+        got = canon_real(pr["proj"], any_proof=pvf)
+        projs.setdefault(json.dumps(got, sort_keys=True), plan)
+        if pvf:
+            choices.setdefault(json.dumps(proof_choice(pr["proj"])), plan)
         if got != want:
-            viol("agg:aggregate:mismatch:%s:%s" % (diff_field(want, got), sh),
+            viol("agg:aggregate:mismatch:%s:%s%s" % (diff_field(want, got), sh, sfx),
                  "aggregate result differs from the specification in its %s" % diff_field(want, got),
                  {"plan": plan, "want": want, "got": got})
         elif pr["valid"] != "ok" and c["nondegenerate"] and n >= 1:
-            viol("agg:aggregate:result_invalid:%s" % sh, "aggregate of valid transactions does not validate (%s)" % pr.get("verr"),
+            viol("agg:aggregate:result_invalid:%s%s" % (sh, sfx), "aggregate of valid transactions does not validate (%s)" % pr.get("verr"),
                  {"plan": plan, "real": pr})
         else:
             counts["plans_equal_and_valid"] += 1
+            if not cf:
+                counts["plans_equal_and_valid_shape_" + lab] += 1
+    # order / grouping independence of the real code itself, the error verdict included
+    if c["nondegenerate"]:
+        for group, what in ((real_ok, "plans whose every group has an aggregate"), (real_refused, "plans with a refused group")):
+            verdicts = {v for _, v in group}
+            if len(verdicts) > 1:
+                ex = {v: next(p for p, w in group if w == v) for v in verdicts}
+                viol("agg:aggregate:grouping_dependent%s" % (sfx or ":shape=" + lab),
+                     "aggregate succeeds or fails depending on order / grouping (%s): %d succeed, %d fail"
+                     % (what, sum(1 for _, v in group if v == "ok"), sum(1 for _, v in group if v == "err")),
+                     {"succeeds": ex["ok"], "fails": ex["err"], "hot": c["hot"]})
+        if len(projs) > 1:
+            viol("agg:aggregate:grouping_dependent:result%s" % (sfx or ":shape=" + lab),
+                 "aggregate yields different transactions depending on order / grouping",
+                 {"plans": list(projs.values())[:3], "results": [json.loads(k) for k in list(projs)[:3]]})
+    if len(choices) > 1:
+        counts["families_proof_choice_order_dependent"] += 1
+        obs("agg:aggregate:proof_choice_order_dependent%s" % (sfx or ":shape=" + lab),
+            "which of two valid range proofs of a re-created commitment the aggregate carries depends on operand order / grouping",
+            {"plans": list(choices.values())[:2], "alternative_proofs_carried": [json.loads(k) for k in list(choices)[:2]], "hot": c["hot"]})
     # de-aggregation
     k = len(r.get("deaggs", [])) // max(1, len(c["deaggs"])) if c["deaggs"] else 0
     for j, d in enumerate(c["deaggs"]):
-        want = canon_expect(d["expect"])
+        dwant = canon_expect(d["expect"])
         sub_off = sum(c["txs"][s - 1]["off"] for s in d["sub"])
         for m in range(k):
             dr = r["deaggs"][j * k + m]
             counts["deaggregations"] += 1
             if dr["res"] != "ok":
-                if want["off"] == 0 and sub_off != 0:
+                if dwant["off"] == 0 and sub_off != 0:
                     viol("agg:deaggregate:err:remainder_offset_zero",
                          "deaggregate fails (%s) when the remainder's offset is zero and the subset's is not" % dr.get("err"),
-                         {"sub": d["sub"], "want": want, "real": dr})
+                         {"sub": d["sub"], "want": dwant, "real": dr})
                 elif c["nondegenerate"]:
                     viol("agg:deaggregate:failed", "deaggregate failed (%s %s)" % (dr["res"], dr.get("err")),
-                         {"sub": d["sub"], "want": want, "real": dr})
+                         {"sub": d["sub"], "want": dwant, "real": dr})
                 continue
             got = canon_real(dr["proj"])
-            if got != want:
-                viol("agg:deaggregate:mismatch:%s" % diff_field(want, got),
-                     "deaggregate does not return the remainder (%s differ)" % diff_field(want, got),
-                     {"sub": d["sub"], "want": want, "got": got})
+            if got != dwant:
+                viol("agg:deaggregate:mismatch:%s" % diff_field(dwant, got),
+                     "deaggregate does not return the remainder (%s differ)" % diff_field(dwant, got),
+                     {"sub": d["sub"], "want": dwant, "got": got})
             elif dr["valid"] != "ok" and c["nondegenerate"]:
                 viol("agg:deaggregate:result_invalid", "remainder does not validate (%s)" % dr.get("verr"), {"sub": d["sub"], "real": dr})
             else:
                 counts["deaggregations_equal"] += 1
     # block / compact / hydrate
-    if cf:
+    if ag:
         br = r["block"]
         b = c["block"]
-        want = canon_expect(b["expect"])
-        want.pop("off")
+        bwant = canon_expect(b["expect"])
+        bwant.pop("off")
+        flat_plan = list(range(1, n + 1))
+        build_plans = [flat_plan] + [c["plans"][i] for i in c.get("builds", [])]
+        builds = br.get("builds") or [{"res": br["res"], "err": br.get("err")}]
+        for j, (bp, bd) in enumerate(zip(build_plans, builds)):
+            counts["block_builds"] += 1
+            sh = shape(bp)
+            if bd["res"] != "ok":
+                if c["nondegenerate"]:
+                    viol("agg:block:%s%s" % ("parts_failed" if bd["res"] == "parts_err" else "from_reward_failed",
+                                             (":" + sh + sfx) if (sfx or j) else ""),
+                         "Block::from_reward failed (%s %s) on transactions that have an aggregate (%s)" % (bd["res"], bd.get("err"), lab),
+                         {"built_from": bp, "real": bd})
+            elif pvf and bd.get("same_body") is False and bd.get("same_total") and canon_real(bd["proj"], with_off=False, any_proof=True) == bwant:
+                counts["block_builds_other_proof"] += 1
+                obs("agg:block:proof_choice_grouping_dependent%s" % sfx,
+                    "blocks built from different groupings of the same transactions carry different (valid) range proofs for a re-created commitment",
+                    {"built_from": bp, "reference": build_plans[br.get("ref", 0)]})
+            elif bd.get("same_body") is False or bd.get("same_total") is False:
+                f = "total_offset" if bd.get("same_body") else (diff_field(bwant, canon_real(bd["proj"], with_off=False)) or "bytes")
+                viol("agg:block:grouping_dependent:%s:%s%s" % (f, sh, sfx),
+                     "the block built from pre-aggregated groups differs from the block built from the other grouping",
+                     {"built_from": bp, "reference": build_plans[br.get("ref", 0)], "real": bd})
+            else:
+                counts["block_builds_equal"] += 1
         if br["res"] != "ok":
-            if c["nondegenerate"]:
-                viol("agg:block:from_reward_failed", "Block::from_reward failed (%s)" % br.get("err"), {"real": br})
             return
-        got = canon_real(br["proj"], with_off=False)
-        if got != want or br["total"] != b["total"]:
-            f = diff_field(want, got) or "total_offset"
-            viol("agg:block:mismatch:%s" % f, "block built from the transactions differs from the specification (%s)" % f,
-                 {"want": want, "want_total": b["total"], "got": got, "got_total": br["total"]})
+        got = canon_real(br["proj"], with_off=False, any_proof=pvf)
+        if got != bwant or br["total"] != b["total"]:
+            f = diff_field(bwant, got) or "total_offset"
+            viol("agg:block:mismatch:%s%s" % (f, sfx), "block built from the transactions differs from the specification (%s)" % f,
+                 {"want": bwant, "want_total": b["total"], "got": got, "got_total": br["total"]})
         elif br["valid"] != "ok" and c["nondegenerate"]:
-            viol("agg:block:invalid", "block built from valid transactions does not validate (%s)" % br.get("verr"), {"real": br})
-        for plan, h in zip(c["plans"], br["hydrated"]):
-            counts["hydrations"] += 1
+            viol("agg:block:invalid%s" % sfx, "block built from valid transactions does not validate (%s)" % br.get("verr"), {"real": br})
+        for i, (plan, h) in enumerate(zip(c["plans"], br["hydrated"])):
             sh = shape(plan)
-            if h["res"] != "ok":
-                viol("agg:hydrate:failed:%s" % sh, "hydrate_from failed (%s)" % h.get("err"), {"grouping": plan, "real": h})
+            if not c["parts_ok"][i]:
+                # a group of this grouping has no aggregate: there is nothing to hydrate from
+                counts["hydrations_skipped_group_refused"] += 1
+                if h["res"] != "parts_err":
+                    counts["hydrations_group_refused_but_real_built_it"] += 1     # flagged at the plan above
+                continue
+            counts["hydrations"] += 1
+            if not cf:
+                counts["hydrations_shape_" + lab] += 1
+            if h["res"] == "parts_err":
+                counts["hydrations_parts_failed"] += 1                              # flagged at the sub-family's own case
+                if c["nondegenerate"]:
+                    viol("agg:hydrate:parts_failed:%s%s" % (sh, sfx), "a group of the grouping could not be pre-aggregated (%s)" % h.get("err"),
+                         {"grouping": plan, "real": h})
+            elif h["res"] != "ok":
+                viol("agg:hydrate:failed:%s%s" % (sh, sfx), "hydrate_from failed (%s)" % h.get("err"),
+                     {"grouping": plan, "block_built_from": build_plans[br.get("ref", 0)], "hot": c["hot"], "real": h})
+            elif pvf and not h["same_body"] and "proj" in h and canon_real(h["proj"], with_off=False, any_proof=True) == bwant:
+                counts["hydrations_other_proof"] += 1
+                obs("agg:hydrate:proof_differs:%s%s" % (sh, sfx),
+                    "the hydrated block carries another (valid) range proof for a re-created commitment than the block: not the identical block",
+                    {"grouping": plan, "block_built_from": build_plans[br.get("ref", 0)],
+                     "block_proofs": proof_choice(br["proj"]), "hydrated_proofs": proof_choice(h["proj"])})
             elif not h["same_body"]:
                 hp = canon_real(h["proj"], with_off=False) if "proj" in h else {}
-                viol("agg:hydrate:body_differs:%s:%s" % (diff_field(want, hp), sh),
-                     "hydrated block body is not the block's body", {"grouping": plan, "want": want, "got": hp})
+                viol("agg:hydrate:body_differs:%s:%s%s" % (diff_field(bwant, hp), sh, sfx),
+                     "hydrated block body is not the block's body", {"grouping": plan, "want": bwant, "got": hp})
             elif not h["same_hash"]:
-                viol("agg:hydrate:header_differs:%s" % sh, "hydrated block header differs", {"grouping": plan})
+                viol("agg:hydrate:header_differs:%s%s" % (sh, sfx), "hydrated block header differs", {"grouping": plan})
             elif not h["ids_ok"] or h["full_out"] != 1 or h["full_kern"] != 1:
                 viol("agg:compact:short_ids_or_full_elements", "compact block does not list the coinbase elements in full and "
                      "the other kernels by short id", {"grouping": plan, "real": h})
@@ -174,6 +312,7 @@ def run(tier, replay):
     wd = vlib.workdir(PID, clean=True)
     thorough = tier == "thorough"
     counts = collections.Counter()
+    observations = {}
 
     def check_cases(cases, tag, record=True):
         hc = [to_harness_case(c)[0] for c in cases]
@@ -182,10 +321,25 @@ def run(tier, replay):
         for c in cases:
             def viol(sig, what, detail, c=c):
                 found.append((sig, c, what, detail))
-            judge(c, res[c["id"]], viol, counts)
+
+            def obs(sig, what, detail, c=c):
+                # a registered known finding is reported as such, otherwise it is an observation in the evidence
+                if any(k["signature"] == sig for k in rep.known):
+                    found.append((sig, c, what, detail))
+                    return
+                counts["observation:" + sig] += 1
+                if sig not in observations:
+                    observations[sig] = {"what": what, "lib": c["lib"], "family": c["fam"], "txs": c["txs"], "detail": detail}
+                    log("OBSERVATION property=%s %s [%s] family lib%d %s" % (PID, what, sig, c["lib"], c["fam"]))
+            judge(c, res[c["id"]], viol, counts, obs)
         if record:
+            per_sig = collections.Counter()
             for sig, c, what, detail in found:
-                rep.violation(sig, {"case": c, "detail": detail}, what + ": " + json.dumps(detail)[:700])
+                per_sig[sig] += 1
+                if per_sig[sig] <= 2:       # at most two replay files per signature; the count goes to the evidence
+                    rep.violation(sig, {"case": c, "detail": detail}, what + ": " + json.dumps(detail)[:700])
+            for sig, k in per_sig.items():
+                counts["violations:" + sig] += k
         return res, infos, found
 
     if replay:
@@ -224,9 +378,36 @@ def run(tier, replay):
     res, infos, found = check_cases(cases, "cases")
 
     # the binding is real: a perturbed expectation must be flagged by the same oracle
+    # ... and so must a flipped verdict: a re-creation family declared refused when presented flat, a
+    # double spend declared to have the aggregate of its first transaction
+    rec = next((c for c in cases if family_label(c) == "recreate" and len(c["fam"]) == 3), None)
+    dbl = next((c for c in cases if family_label(c) in ("double_spend", "dup_output") and len(c["fam"]) == 2), None)
+    if rec is None or dbl is None:
+        raise ToolError("no re-creation / double-spend family among the emitted cases")
+    flat_ix = next(i for i, p in enumerate(rec["plans"]) if shape(p) == "flat")
+    for fam_case, mutate, wantsig in (
+            (rec, lambda x: x["plan_ok"].__setitem__(flat_ix, False), "agg:aggregate:accepted:flat:shape=recreate"),
+            (rec, lambda x: x["expect"]["outs"].pop(), "agg:aggregate:mismatch:outputs"),
+            (dbl, lambda x: (x.__setitem__("aggregable", True), x.__setitem__("plan_ok", [True] * len(x["plans"])),
+                             x.__setitem__("expect", {"err": False, "ins": [], "outs": [], "kerns": [], "off": 0}),
+                             x.__setitem__("block", {"expect": {"err": False, "ins": [], "outs": [], "kerns": [], "off": 0}, "total": 0})),
+             "agg:aggregate:failed:flat:shape=")):
+        p2 = json.loads(json.dumps(fam_case))
+        mutate(p2)
+        got = []
+        r2 = json.loads(json.dumps(res[fam_case["id"]]))
+        r2.setdefault("block", {"res": "err"})
+        judge(p2, r2, lambda sig, what, detail: got.append(sig), collections.Counter())
+        if not any(g.startswith(wantsig) for g in got) and not rep.violations:
+            raise ToolError("selftest: flipped verdict (%s) not flagged: %s" % (wantsig, got[:3]))
+    for want_lab in ("recreate", "respend", "cycle", "dup_output", "double_spend", "dup_output_after_cut", "double_spend_after_cut"):
+        if counts["families_" + want_lab] == 0:
+            raise ToolError("no family of shape %s was executed" % want_lab)
+    if counts["plans_refused_agree"] == 0 and not rep.violations:
+        raise ToolError("no refused plan was executed")
     probe = next(c for c in cases if c["conflict_free"] and len(c["fam"]) == 3 and c["nondegenerate"])
-    for mutate, wantsig in ((lambda x: x["expect"][0].__setitem__("off", x["expect"][0]["off"] + 1), "agg:aggregate:mismatch:offset"),
-                            (lambda x: x["expect"][0]["kerns"].pop(), "agg:aggregate:mismatch:kernels"),
+    for mutate, wantsig in ((lambda x: x["expect"].__setitem__("off", x["expect"]["off"] + 1), "agg:aggregate:mismatch:offset"),
+                            (lambda x: x["expect"]["kerns"].pop(), "agg:aggregate:mismatch:kernels"),
                             (lambda x: x["block"]["expect"]["outs"].pop(0), "agg:block:mismatch:outputs")):
         p2 = json.loads(json.dumps(probe))
         mutate(p2)
@@ -239,29 +420,38 @@ def run(tier, replay):
             raise ToolError("binding is vacuous: %s" % dict(counts))
 
     fams = collections.Counter("lib%d:n=%d:%s" % (c["lib"], len(c["fam"]),
-                               "independent" if c["independent"] else "chained" if c["conflict_free"] else "conflicting") for c in cases)
+                               "independent" if c["independent"] else "chained" if c["conflict_free"] else family_label(c)) for c in cases)
+    rs = rec
+    rs_flat = res[rs["id"]]["plans"][flat_ix]
     s = next(c for c in cases if c["conflict_free"] and not c["independent"] and len(c["fam"]) == 3)
     rep.coverage = {
         "states": r.distinct, "transitions": r.generated,
-        "traces_validated_against_impl": counts["plans"] + counts["deaggregations"] + counts["hydrations"],
-        "samples": [{"family": s["fam"], "lib": s["lib"], "txs": s["txs"], "plan": s["plans"][3], "expect": s["expect"][0],
+        "traces_validated_against_impl": counts["plans"] + counts["deaggregations"] + counts["hydrations"] + counts["block_builds"],
+        "samples": [{"family": s["fam"], "lib": s["lib"], "txs": s["txs"], "plan": s["plans"][3], "expect": s["expect"],
                      "real": res[s["id"]]["plans"][3]},
+                    {"family": rs["fam"], "lib": rs["lib"], "shape": family_label(rs), "hot": rs["hot"], "plan": rs["plans"][flat_ix],
+                     "expect": rs["expect"], "real": rs_flat,
+                     "refused_plans": [p for p, ok in zip(rs["plans"], rs["plan_ok"]) if not ok][:2]},
                     {"family": probe["fam"], "deaggregate": probe["deaggs"][:1] if probe["deaggs"] else None},
                     {"hydrated": res[s["id"]]["block"]["hydrated"][:2]}],
         "exhaustive_within_bounds": True,
         "model": {"config": cfg, "actions": {k: v[0] for k, v in acts.items()}, "wall_s": round(r.wall, 1)},
         "families": len(cases), "families_by_kind": dict(fams),
-        "counts": dict(counts), "harness": infos,
+        "counts": dict(counts), "harness": infos, "observations": observations,
         "distinct_rule": "one trace = one real aggregate() per (family, permutation, bracketing), one deaggregate() per "
-                         "(independent family, subset, aggregate order), one hydrate_from() per (family, grouping)",
+                         "(independent family, subset, aggregate order), one hydrate_from() per (aggregable family, grouping whose "
+                         "groups exist), one from_reward() per (aggregable family, chosen grouping)",
         "checker_cmd": "tlc mc/MC_Agg; tlc mc/MC_Agg_emit; h_txbal agg",
     }
     rep.assumptions = [
         "secp256k1-zkp primitives used as primitives (commitments with distinct (v, r) are distinct points)",
-        "families are the sub-multisets of size <= 4 of fixed model libraries (8 + 5 transactions over <= 8 commitments each), "
-        "not all transactions over 8 commitments",
+        "families are the sub-multisets of size <= 4 (thorough 5) of fixed model libraries (8 + 5 + 6 + 6 + 5 transactions over <= 8 "
+        "commitments each), not all transactions over 8 commitments; a commitment occurs at most 3 times as an output and 3 times "
+        "as an input inside one family",
+        "outputs carrying the same commitment carry the same range proof (proofs are a function of (value, blinding) here)",
         "families whose non-zero offsets cancel (aggregate refuses the zero scalar) are outside the generated set",
         "compact-block nonces are the random ones drawn by CompactBlock::from (one per grouping); short-id collisions not forced",
-        "conflicting families (double spends / duplicated outputs inside the family) are compared as evidence only",
+        "a plan with a group that is not aggregable on its own (e.g. [a, c] of a: U->X, b: X->Y, c: Y,V->X) is specified as refused: "
+        "the intermediate transaction would carry a commitment twice",
     ]
     return rep.finish()
